@@ -55,7 +55,9 @@ func (c *vmregCfg) prog(g int) []int {
 	return prog
 }
 
-var vmregOps = []string{"AddClass", "AddInterface", "AddFunc", "GetClass", "GetInterface", "GetFunc", "LoadPkg", "GetOrLoadClass", "SetConstant", "GetConstant", "EnsureGlobalZVal"}
+// AutoloadSub: GetOrLoadClass of App\Pkg<n>\Model, which exists only as a file two directories below the one
+// registered namespace prefix "App": the class-path manager discovers the sub-namespace on first use
+var vmregOps = []string{"AddClass", "AddInterface", "AddFunc", "GetClass", "GetInterface", "GetFunc", "LoadPkg", "GetOrLoadClass", "SetConstant", "GetConstant", "EnsureGlobalZVal", "AutoloadSub"}
 
 type vmregEv struct {
 	G     int   `json:"g"`
@@ -80,6 +82,14 @@ func vmregHandler(req *sb.Req) *sb.Rep {
 	}
 	p := parser.NewParser()
 	vm := runtime.NewVM(p).(*runtime.VM)
+	appDir, _ := os.MkdirTemp("", "c10-app-")
+	defer os.RemoveAll(appDir)
+	for n := 0; n < cfg.Names; n++ {
+		d := filepath.Join(appDir, "App", fmt.Sprintf("Pkg%d", n))
+		os.MkdirAll(d, 0o755)
+		os.WriteFile(filepath.Join(d, "Model.php"), []byte(fmt.Sprintf("<?php\nnamespace App\\Pkg%d;\nclass Model { function id() { return %d; } }\n", n, n)), 0o644)
+	}
+	vm.AddNamespace("App", filepath.Join(appDir, "App"))
 	var clock, objSeq int64
 	var mu sync.Mutex
 	ident := map[any]int64{}
@@ -162,6 +172,12 @@ func vmregHandler(req *sb.Req) *sb.Rep {
 					if ev.Ok {
 						ev.Obj = idOf(c)
 					}
+				case "AutoloadSub":
+					c, acl := vm.GetOrLoadClass(fmt.Sprintf("App\\Pkg%d\\Model", n))
+					ev.Ok = acl == nil && c != nil
+					if ev.Ok {
+						ev.Obj = idOf(c)
+					}
 				case "SetConstant":
 					ev.Obj = int64(g*100000 + k + 1)
 					ev.Ok = vm.SetConstant(name("C", n), data.NewIntValue(int(ev.Obj))) == nil
@@ -238,6 +254,22 @@ func judgeVMHistory(cfg vmregCfg, out *vmregOut) [][2]string {
 		}
 		if n == 0 && len(as) > 0 {
 			add("cell:history:all-rejected", fmt.Sprintf("%d racing registrations of %s%d and none reported success", len(as), k.ns, k.n))
+		}
+	}
+	// autoloaded classes: every lookup finds the class, and all of them the same one
+	auto := map[int]int64{}
+	for _, e := range out.Events {
+		if vmregOps[e.Op] != "AutoloadSub" {
+			continue
+		}
+		if !e.Ok {
+			add("cell:history:autoload-failed", fmt.Sprintf("GetOrLoadClass of App\\Pkg%d\\Model (a file below the registered namespace directory) failed on goroutine %d", e.Name, e.G))
+			continue
+		}
+		if first, ok := auto[e.Name]; ok && first != e.Obj {
+			add("cell:history:autoload-two-classes", fmt.Sprintf("two lookups of App\\Pkg%d\\Model returned different class objects", e.Name))
+		} else {
+			auto[e.Name] = e.Obj
 		}
 	}
 	lookupKind := func(op string) (ns string, want string) {
